@@ -86,6 +86,8 @@ def spec_circ(spec):
 
 # ------------------------------------------------------------------ generators
 N_CHOICES = [[1], [2], [3], [4], [1, 2], [2, 3], [2, 2], [3, 1], [1, 1, 2], [2, 1, 2]]
+# two-digit sizes: >= 10 concurrent modes, >= 10 bands (indices, loop-variable names and keys with two digits)
+N_BIG = [[10], [12], [6, 5], [10, 2], [1] * 10, [1] * 11, [2, 1] * 4 + [1, 1]]
 
 
 def band_starts(N):
@@ -96,17 +98,24 @@ def band_starts(N):
     return out
 
 
-def gen_spec(rng, ints, N=None, T=None, shift=None, measure=True, single_band=False, max_ops=6, mz=False, off_head=0.0):
-    """random rolled program; `ints`: integer-valued arguments (exactly comparable with the model)"""
+def gen_spec(rng, ints, N=None, T=None, shift=None, measure=True, single_band=False, max_ops=6, mz=False, off_head=0.0,
+             many=0.3, big=0.0):
+    """random rolled program; `ints`: integer-valued arguments (exactly comparable with the model).
+    `many`: probability of 11-14 parameter arrays (loop variables p10, p11, ... next to p1: names that are prefixes
+    of one another), every array is used by some command and all entries of all arrays are pairwise different;
+    `big`: probability of a two-digit number of concurrent modes / bands / time bins."""
     if N is None:
-        N = rng.choice([n for n in N_CHOICES if len(n) == 1] if single_band else N_CHOICES)
+        if rng.random() < big:
+            N = rng.choice([n for n in N_BIG if len(n) == 1] if single_band else N_BIG)
+        else:
+            N = rng.choice([n for n in N_CHOICES if len(n) == 1] if single_band else N_CHOICES)
     N = list(N)
     C = sum(N)
     if T is None:
-        T = rng.choice([1, 2, 2, 3, 3, 4, 5])
+        T = rng.choice([10, 11, 12]) if rng.random() < big else rng.choice([1, 2, 2, 3, 3, 4, 5])
     if shift is None:
         shift = "default" if rng.random() < 0.6 else rng.choice([1, 1, 0, 2, -1, C, C + 1, 3])
-    npar = rng.randint(2, 4)
+    npar = rng.randint(11, 14) if rng.random() < many else rng.choice([2, 3, 4, 4, 10])
 
     def angle():
         return rng.randint(0, 6) if ints else round(rng.uniform(-3.0, 3.0), 6)
@@ -114,11 +123,20 @@ def gen_spec(rng, ints, N=None, T=None, shift=None, measure=True, single_band=Fa
     def squeeze():
         return rng.choice([0, 1, 1]) if ints else round(rng.uniform(0.2, 0.9) * rng.choice([1, -1]), 6)
 
-    params = []
-    for i in range(npar):
-        params.append([angle() for _ in range(T)])
-    # make parameter rows pairwise different so that a wrong row or column is visible
-    pv = lambda: "p%d" % rng.randrange(npar)
+    # all entries pairwise different, so that a wrong array (row) or time bin (column) is always visible
+    if ints:
+        vals = rng.sample(range(1, npar * T + 8), npar * T)
+        params = [[vals[i * T + t] for t in range(T)] for i in range(npar)]
+    else:
+        params = [[angle() for _ in range(T)] for i in range(npar)]
+    # every array gets used: the arrays are handed out round-robin (random start), later ones first half of the time
+    order = list(range(npar))
+    rng.shuffle(order)
+    handed = [0]
+
+    def pv():
+        handed[0] += 1
+        return "p%d" % order[(handed[0] - 1) % npar]
     starts = band_starts(N)
     ops = []
     # a squeezed pulse enters at the tail of every band
@@ -141,6 +159,10 @@ def gen_spec(rng, ints, N=None, T=None, shift=None, measure=True, single_band=Fa
         else:  # a gate whose inverse is NOT "negate the first argument"
             a, b = rng.sample(range(C), 2)
             ops.append(dict(cls="MZgate", regs=[a, b], pars=[pv(), angle()], d=rng.random() < 0.6))
+    # arrays not used so far drive an extra rotation each
+    need = npar - handed[0] - (len(N) if measure else 0)
+    for _ in range(max(need, 0)):
+        ops.append(dict(cls="Rgate", regs=[rng.randrange(C)], pars=[pv()], d=rng.random() < 0.25))
     if measure:
         # measure the leading mode of each band, after the last command touching that slot
         bands = list(range(len(N)))
